@@ -179,6 +179,8 @@ def run(ctx, rep):
                                    "the %d ComputeParameters call(s) are on the other branch only" % len(comp_blocks)))
     rep.floor("explicit-quantization sites", n_sites, len(tab["explicit_sites"]))
 
+    oneround(ctx, rep, tab)
+
     # ---- WHOWRITES ---------------------------------------------------------------
     cls = tab["transform_class"]
     fields = set(tab["parameter_fields"])
@@ -224,3 +226,88 @@ def run(ctx, rep):
                            "a new writer of the transform parameters (they are no longer a function of "
                            "SetParameters/ComputeParameters/DecodeParameters alone)"))
     rep.floor("writers of the quantization parameters", len(writers), 4)
+
+
+FP_TYPES = ("float", "double", "long double")
+ROUND_CALLS = ("lrint", "lrintf", "lrintl", "lround", "lroundf", "lroundl", "llrint", "llrintf", "llround", "llroundf",
+               "nearbyint", "nearbyintf", "rint", "rintf")
+
+
+def _is_fp_type(t):
+    return (t or "").replace("const ", "").strip() in FP_TYPES
+
+
+def _fp_typed(n):
+    if not isinstance(n, dict):
+        return False
+    k = n.get("k")
+    if k in ("var", "field"):
+        return _is_fp_type(n.get("t"))
+    if k == "call":
+        return _is_fp_type(n.get("ret"))
+    if k == "lit":
+        return "f" in n or isinstance(n.get("v"), float)
+    if k in ("icast", "cast"):
+        if n.get("iw"):
+            return False
+        return _is_fp_type(n.get("to")) or _fp_typed(n.get("e"))
+    if k in ("copy", "paren", "un"):
+        return _fp_typed(n.get("e"))
+    if k == "bin":
+        return _fp_typed(n.get("l")) or _fp_typed(n.get("r"))
+    if k == "cond":
+        return _fp_typed(n.get("t")) or _fp_typed(n.get("f"))
+    if k == "sub":
+        return any(x in str(n.get("t") or "") for x in ("float", "double"))
+    return False
+
+
+def oneround(ctx, rep, tab):
+    """ONEROUND: one rounding rule.  Everything reachable from the quantizing entry points converts a
+    floating-point value to an integer only inside the listed functions; a second conversion site (a fast path
+    with lrintf, a truncating cast) gives the same coordinate another grid vertex depending on which path the
+    geometry takes."""
+    F = ctx.F
+    rep.rules_text.append(
+        "ONEROUND: in Reach(quantizing entry points) a float->integer conversion (integer cast of a floating "
+        "expression, lrint/lround family) occurs only in Quantizer::QuantizeFloat (and the generic attribute type "
+        "conversion): the grid vertex of a coordinate is a function of (coordinate, origin, range, bits) alone")
+    roots = []
+    for r in tab["quantize_roots"]:
+        roots += F.need(r)
+    ctl = [f for f in F.fns.values() if f.name.startswith("verif_control::c12_round")]
+    reach = set(F.reach(roots)) | set(F.reach(ctl)) if ctl else set(F.reach(roots))
+    allowed = tab["rounding_allowed"]
+    n_sites, fired = 0, False
+    seen = set()
+    for k in sorted(reach):
+        fn = F.fns.get(k)
+        if fn is None or ("/draco/" not in fn.file and not fn.name.startswith("verif_control::")):
+            continue
+        is_ctl = fn.name.startswith("verif_control::")
+        for b, rk, tree, ev in fn.roots():
+            if tree is None:
+                continue
+            for n in walk(tree):
+                kk = n.get("k")
+                conv = None
+                if kk in ("icast", "cast") and n.get("iw") and n.get("iw") > 1 and _fp_typed(n.get("e")):
+                    conv = "(%s) of a floating-point value" % n.get("to")
+                elif kk == "call" and strip_targs(n.get("fn") or "").rsplit("::", 1)[-1] in ROUND_CALLS:
+                    conv = strip_targs(n.get("fn") or "")
+                if conv is None:
+                    continue
+                key = (fn.base, conv)
+                if key in seen:
+                    continue
+                seen.add(key)
+                ok = fn.base in allowed
+                n_sites += 0 if is_ctl else 1
+                fired |= is_ctl and not ok
+                rep.add(Obligation("ONEROUND", fn.base, "float->integer: " + conv, fn.site(n.get("loc", "") or ev.get("loc", "")),
+                                   DISCHARGED if ok else VIOLATION, control=is_ctl, trivial=ok,
+                                   detail=allowed.get(fn.base, "") if ok else
+                                   "a second float->integer conversion on the quantization path: the grid vertex a "
+                                   "coordinate maps to now depends on which path the geometry takes"))
+    rep.floor("float->integer conversion sites on the quantization paths", n_sites, 1)
+    rep.control("ONEROUND", "c12_round_bad", fired, "a second rounding function on the quantization path must be reported")
